@@ -136,6 +136,12 @@ class Walker:
                 want, yes, no = self.calls_by_arg[f]
                 self.emit('Call', yes if _txt(e.args[0]) == want else no)
                 return
+            # '*.meth' in CONFIG: the method, whatever the (local) receiver
+            # is called
+            if f not in self.calls and isinstance(e.func, ast.Attribute) \
+                    and isinstance(e.func.value, ast.Name) \
+                    and '*.' + e.func.attr in self.calls:
+                self.calls[f] = self.calls['*.' + e.func.attr]
             if f in self.calls:
                 if isinstance(e.func, ast.Attribute):
                     self.expr(e.func.value) if _txt(e.func.value) \
@@ -352,7 +358,7 @@ CONFIG = [
      {'locks': COLL_LOCKS,
       'withs': {'multiprocessing.Manager': ('mgr_enter', 'mgr_exit')},
       'calls': {'self._run_mp': 'run_mp', 'self._run_single': 'run_single',
-                'rs.unproxy_results': 'unproxy',
+                '*.unproxy_results': 'unproxy',
                 'self.stats.reset': 'stats_reset'}}),
     ('execute', 'searchkit/task.py', 'SearchTask.execute',
      {'locks': {},
